@@ -40,6 +40,7 @@ def overlay_for(out_dir, prop, d, name, tag):
 
 def main():
     out_dir, name = sys.argv[1], sys.argv[2]
+    fast = "--fast" in sys.argv      # regression mode: patch + build + checks only (demo/tests were confirmed before)
     extra = []
     if "--checks" in sys.argv:
         extra = sys.argv[sys.argv.index("--checks") + 1].split(",")
@@ -67,7 +68,7 @@ def main():
         res["builds"] = rc == 0
         tests_ok = True
         res["package_tests"] = {}
-        for pkg in touched:
+        for pkg in ([] if fast else touched):
             ov = ""
             if pkg.startswith("internal/bgp/frr") and not pkg.startswith("internal/bgp/frrk8s"):
                 ov = overlay_for(out_dir, prop, A, name, "pkg")
@@ -86,7 +87,7 @@ def main():
         runname = re.search(r'-run\s+(\S+)', demo_run)
         runflag = "-run '%s'" % runname.group(1).strip("'\"") if runname else ""
         race = "-race" if "-race" in demo_run else ""
-        for tag, d in (("with_change", A), ("without_change", B)):
+        for tag, d in (() if fast else (("with_change", A), ("without_change", B))):
             src = os.path.join(out_dir, demo)
             if os.path.exists(src) and demo.endswith("_test.go"):
                 os.makedirs(os.path.join(d, demo_pkg), exist_ok=True)
@@ -106,6 +107,13 @@ def main():
                 except OSError:
                     pass
         res["confirmed"] = bool(res["builds"] and tests_ok and res.get("demo_with_change") == "fail" and res.get("demo_without_change") == "pass")
+        if fast:
+            prev = meta.get("coordinator_confirmation", {})
+            for k in ("existing_tests_pass_with_change", "demo_with_change", "demo_without_change", "package_tests", "demo_with_change_tail", "demo_without_change_tail"):
+                if k in prev:
+                    res[k] = prev[k]
+            res["confirmed"] = bool(prev.get("confirmed")) and res["builds"]
+            res["regression_run"] = True
         # our checks against the changed tree
         res["checks"] = {}
         for c in [prop] + [x for x in extra if x != prop]:
